@@ -33,6 +33,17 @@ still parsed WITHOUT it): additionally `[ ] +`; postfix index `e '[' expr ']'` (
 (bp 6, left-assoc); statement `e '[' expr ']' '=' expr`; named types (`-> range`); the receiver of a
 method call may be a local (`self.len()`), which parses to the same node as `Interface.method(...)`.
 
+loops mode (ONLY for the bounded-unrolling array obligations of vcloops.py; implies ext; the Equal/Ord/Hash blocks and
+the loop-free array members are still parsed WITHOUT it, so a loop there is still refused): additionally
+  statements  `while` expr block | `for` pattern `in` expr block | `break` | `continue` | e '.' IDENT '=' expr
+  terms       `match` expr '{' arm { (NL | ',') arm } '}'   arm ::= mpat '->' stmt
+              mpat ::= '_' | '.' IDENT [ '(' (IDENT | '_') ')' ]
+              '.' IDENT (leading-dot variant; a following call makes `.some(e)`) | '[' [ expr { ',' expr } ] ']'
+  postfix     field access e '.' IDENT without a call; method call on a computed receiver `e.f.m(args)`
+  types       NAME '<' type { ',' type } '>'  (array<T Clone>, option<int>, ArrayIterator<V>)
+plus the cutters Prelude.impl_for(iface, ctor), Prelude.extend_fn_any(ctor, name), Prelude.struct_fields(name),
+Prelude.enum_variants(name).
+
 Refused on sight: `match`, `while`, `for`, `break`, `continue`, `task`, lambdas (`->` after a term),
 bare `return`, compound assignment, type annotations on `let`, default arguments, attributes,
 member access other than IDENT.IDENT(args), indexing, `!`/`?`, arithmetic, strings, floats.
@@ -230,6 +241,146 @@ class Prelude:
             raise v
         return v
 
+    # ---- cutters for the bounded-unrolling subset (vcloops.py); everything is located BY NAME and must be unique
+    def impl_for(self, iface, ctor):
+        """`implement <iface> for <ctor>[<...>] { ... }` parsed in loops mode; ctor = the type constructor
+        ('array', 'int', 'ArrayIterator', ...).  Exactly one such block must exist."""
+        k = ('impl_l', iface, ctor)
+        if k not in self._cache:
+            try:
+                hits = [h for h in self.headers() if h[0] == iface and h[1].split('<')[0].strip() == ctor]
+                if len(hits) != 1:
+                    raise Unsupported("expected exactly one `implement %s for %s...` in %s, found %d"
+                                      % (iface, ctor, self.path, len(hits)))
+                _, ty, start, brace = hits[0]
+                end = _match_brace(self.masked, brace)
+                raw, masked = self.src[start:end + 1], self.masked[start:end + 1]
+                header = "implement %s for %s" % (iface, ty)
+                p = Parser(lex(masked, ext=True), header, loops=True)
+                got_iface, fns = p.parse_impl()
+                if got_iface != iface:
+                    raise Unsupported("header mismatch")
+                self._cache[k] = dict(fns=fns, text=raw, sha=sha(raw), header=header, type=ty)
+            except Unsupported as e:
+                self._cache[k] = e
+        v = self._cache[k]
+        if isinstance(v, Exception):
+            raise v
+        return v
+
+    def extend_fn_any(self, ctor, name):
+        """Member `name` of whichever `extend <ctor><...> { }` block defines it (exactly one across all of them),
+        parsed in loops mode.  -> dict(fn, text, sha, header, recv)"""
+        k = ('ext_l', ctor, name)
+        if k not in self._cache:
+            try:
+                hits = []
+                for m in re.finditer(r'^[ \t]*extend[ \t]+([^\n{]*?)[ \t]*\{', self.masked, re.M):
+                    if _depth_at(self.masked, m.start()) != 0:
+                        continue
+                    ty = re.sub(r'\s+', ' ', m.group(1)).strip()
+                    if ty.split('<')[0].strip() != ctor:
+                        continue
+                    bstart, bend = m.end() - 1, _match_brace(self.masked, m.end() - 1)
+                    for f in re.finditer(r'^[ \t]*fn[ \t]+%s[ \t]*\(' % re.escape(name), self.masked[bstart:bend], re.M):
+                        pos = bstart + f.start()
+                        if _depth_at(self.masked, pos) == 1:
+                            hits.append((ty, pos, bend))
+                if len(hits) != 1:
+                    raise Unsupported("expected exactly one `fn %s` in the `extend %s<...>` blocks of %s, found %s"
+                                      % (name, ctor, self.path, [h[0] for h in hits]))
+                ty, start, bend = hits[0]
+                start = self.masked.index('fn', start)
+                nl = self.masked.find('\n', start)
+                brace = self.masked.find('{', start, nl)
+                end = _match_brace(self.masked, brace) + 1 if brace >= 0 else nl
+                if end > bend:
+                    raise Unsupported("function text runs past its block")
+                raw, masked = self.src[start:end], self.masked[start:end]
+                header = "extend %s :: fn %s" % (ty, name)
+                p = Parser(lex(masked, ext=True), header, loops=True)
+                p.skip_newlines()
+                fn = p.parse_fn_def()
+                p.skip_newlines()
+                p.expect('eof')
+                self._cache[k] = dict(fn=fn, text=raw, sha=sha(raw), header=header, recv=ty)
+            except Unsupported as e:
+                self._cache[k] = e
+        v = self._cache[k]
+        if isinstance(v, Exception):
+            raise v
+        return v
+
+    def _type_def(self, name):
+        hits = [m for m in re.finditer(r'^type[ \t]+%s\b[^\n=]*=[ \t]*' % re.escape(name), self.masked, re.M)
+                if _depth_at(self.masked, m.start()) == 0]
+        if len(hits) != 1:
+            raise Unsupported("expected exactly one top-level `type %s` in %s, found %d" % (name, self.path, len(hits)))
+        return hits[0]
+
+    def struct_fields(self, name):
+        """`type NAME<..> = { f1: T1 \n f2: T2 }` -> dict(fields=[f1, f2], text, sha, header); the field order is the
+        order of the positional constructor NAME(v1, v2)."""
+        k = ('struct', name)
+        if k not in self._cache:
+            try:
+                m = self._type_def(name)
+                if self.masked[m.end():m.end() + 1] != '{':
+                    raise Unsupported("`type %s` is not a struct definition" % name)
+                end = _match_brace(self.masked, m.end())
+                raw = self.src[m.start():end + 1]
+                body = self.masked[m.end() + 1:end]
+                fields = []
+                for ln in re.split(r'[\n,]', body):
+                    ln = ln.strip()
+                    if not ln:
+                        continue
+                    fm = re.fullmatch(r'([a-z_][A-Za-z0-9_]*)[ \t]*:[ \t]*([A-Za-z_][A-Za-z0-9_<>, ]*)', ln)
+                    if not fm:
+                        raise Unsupported("field line `%s` of `type %s` is outside the subset" % (ln[:60], name))
+                    fields.append(fm.group(1))
+                if not fields or len(set(fields)) != len(fields):
+                    raise Unsupported("`type %s`: no fields / duplicate fields" % name)
+                self._cache[k] = dict(fields=fields, text=raw, sha=sha(raw), header="type " + name)
+            except Unsupported as e:
+                self._cache[k] = e
+        v = self._cache[k]
+        if isinstance(v, Exception):
+            raise v
+        return v
+
+    def enum_variants(self, name):
+        """`type NAME<T> = a(T) | b` on one line -> dict(variants=[(a, 1), (b, 0)], ...); the position is the VM tag."""
+        k = ('enum', name)
+        if k not in self._cache:
+            try:
+                m = self._type_def(name)
+                nl = self.src.find('\n', m.end())
+                nl = len(self.src) if nl < 0 else nl
+                raw = self.src[m.start():nl]
+                body = self.masked[m.end():nl]
+                if '{' in body or not body.strip():
+                    raise Unsupported("`type %s` is not a one-line enum definition" % name)
+                # parse.rs::parse_enum_def continues over following lines that start with `|`
+                rest = self.masked[nl + 1:self.masked.find('\n', nl + 1)] if nl + 1 < len(self.masked) else ''
+                if rest.strip().startswith('|'):
+                    raise Unsupported("`type %s` continues on the next line" % name)
+                variants = []
+                for part in body.split('|'):
+                    vm = re.fullmatch(r'([a-z_][A-Za-z0-9_]*)[ \t]*(\([ \t]*[A-Za-z_][A-Za-z0-9_<>]*[ \t]*\))?', part.strip())
+                    if not vm:
+                        raise Unsupported("variant `%s` of `type %s` is outside the subset" % (part.strip()[:40], name))
+                    variants.append((vm.group(1), 1 if vm.group(2) else 0))
+                if len(set(v for v, _ in variants)) != len(variants):
+                    raise Unsupported("duplicate variants in `type %s`" % name)
+                self._cache[k] = dict(variants=variants, text=raw, sha=sha(raw), header="type " + name)
+            except Unsupported as e:
+                self._cache[k] = e
+        v = self._cache[k]
+        if isinstance(v, Exception):
+            raise v
+        return v
+
     def free_fn(self, name):
         k = ('fn', name)
         if k not in self._cache:
@@ -276,7 +427,7 @@ _PUNCT1 = '(){},;:=<>.-'
 
 
 def lex(masked, ext=False):
-    """ext=True additionally accepts `[ ] +` (array subset, see Parser ext mode)."""
+    """ext=True additionally accepts `[ ] +` (array subset, see Parser ext mode; loops mode lexes the same)."""
     toks = []
     i, n, line = 0, len(masked), 1
     while i < n:
@@ -342,10 +493,12 @@ MEMBER_BP, INDEX_BP, CALL_BP = 11, 12, 13
 
 
 class Parser:
-    def __init__(self, toks, where, ext=False):
+    def __init__(self, toks, where, ext=False, loops=False):
         self.t = toks
         self.i = 0
         self.where = where
+        ext = ext or loops
+        self.loops = loops      # bounded-unrolling subset: while / for / break / continue / match / variants / fields
         self.ext = ext          # array subset: `a[i]`, `a[i] = e`, binary + and -, named types
         self.binops = dict(BINOPS, **{'+': 6, '-': 6}) if ext else BINOPS
 
@@ -410,6 +563,19 @@ class Parser:
             while self.at('ident'):
                 cons.append(self.next().text)
             return ('poly', name, tuple(cons))
+        if self.loops and self.at('ident'):
+            name = self.next().text
+            targs = []
+            if self.at('op', '<'):
+                self.next()
+                while True:
+                    targs.append(self.parse_type(allow_tuple=allow_tuple))
+                    if self.at('op', ','):
+                        self.next()
+                        continue
+                    break
+                self.expect('op', '>')
+            return ('named', name, tuple(targs))
         if self.ext and self.at('ident'):
             return ('named', self.next().text)
         if allow_tuple and self.at('op', '('):
@@ -457,7 +623,7 @@ class Parser:
             body = self.parse_block()
         else:
             self.bad("function body")
-        if has_member(body):
+        if not self.loops and has_member(body):
             self.bad("member access that is not an `Interface.method(...)` call")
         return FnDef(name, params, body, ptypes, ret)
 
@@ -528,10 +694,27 @@ class Parser:
             if self.at('nl') or self.at('op', '}') or self.at('eof'):
                 self.bad("bare return")
             return ('return', self.parse_expr())
+        if self.loops and tok.kind == 'kw' and tok.text == 'while':
+            self.next()
+            cond = self.parse_expr()
+            return ('while', cond, self.parse_block()[1])
+        if self.loops and tok.kind == 'kw' and tok.text == 'for':
+            self.next()
+            pat = self.parse_pattern()
+            self.expect('kw', 'in')
+            it = self.parse_expr()
+            return ('for', pat, it, self.parse_block()[1])
+        if self.loops and tok.kind == 'kw' and tok.text in ('break', 'continue'):
+            self.next()
+            return (tok.text,)
         if tok.kind == 'kw' and tok.text in ('while', 'for', 'break', 'continue'):
             self.bad("loop construct `%s` is outside the loop-free subset" % tok.text)
         e = self.parse_expr()
         if self.at('op', '='):
+            if self.loops and e[0] == 'member':
+                self.next()
+                rhs = self.parse_expr()
+                return ('assign_field', e[1], e[2], rhs)
             if self.ext and e[0] == 'index':
                 self.next()
                 rhs = self.parse_expr()
@@ -566,6 +749,10 @@ class Parser:
                     lhs = ('call', lhs[1], args)
                 elif lhs[0] == 'member' and lhs[1][0] == 'var':
                     lhs = ('icall', lhs[1][1], lhs[2], args)
+                elif self.loops and lhs[0] == 'member':
+                    lhs = ('mcall', lhs[1], lhs[2], args)
+                elif self.loops and lhs[0] == 'dotvariant':
+                    lhs = ('variant', lhs[1], args)
                 else:
                     self.bad("call of a computed callee")
                 continue
@@ -612,6 +799,34 @@ class Parser:
         self.expect('op', ')')
         return args
 
+    def parse_match_arm(self):
+        """parse.rs::parse_match_arm / parse_match_pattern, for `_`, `.variant` and `.variant(x)` / `.variant(_)` only."""
+        self.skip_newlines()
+        if self.at('wild'):
+            self.next()
+            pat = ('pwild',)
+        elif self.at('op', '.'):
+            self.next()
+            name = self.expect('ident').text
+            sub = None
+            if self.at('op', '('):
+                self.next()
+                if self.at('wild'):
+                    self.next()
+                    sub = ('pwild',)
+                elif self.at('ident'):
+                    sub = ('pvar', self.next().text)
+                    if self.at('op', '(') or self.at('op', '.'):
+                        self.bad("nested pattern in a match arm")
+                else:
+                    self.bad("match sub-pattern outside the subset")
+                self.expect('op', ')')
+            pat = ('pvariant', name, sub)
+        else:
+            self.bad("match pattern outside the subset")
+        self.expect('op', '->')
+        return (pat, self.parse_stmt())
+
     def parse_term(self):
         self.skip_newlines()
         tok = self.peek()
@@ -643,7 +858,40 @@ class Parser:
                     self.next()
                     els = self.parse_stmt()
                 return ('if', cond, then, els)
+            if self.loops and tok.text == 'match':
+                self.next()
+                scrut = self.parse_expr()
+                self.expect('op', '{')
+                arms = []
+                while True:                           # parse_delimited_list(CloseBrace, Comma, parse_match_arm)
+                    self.skip_newlines()
+                    if self.at('op', '}'):
+                        break
+                    arms.append(self.parse_match_arm())
+                    if self.at('op', ',') or self.at('nl'):
+                        self.next()
+                    else:
+                        break
+                self.expect('op', '}')
+                return ('match', scrut, arms)
             self.bad("keyword `%s` outside the subset" % tok.text)
+        if self.loops and tok.kind == 'op' and tok.text == '.':
+            self.next()
+            return ('dotvariant', self.expect('ident').text)
+        if self.loops and tok.kind == 'op' and tok.text == '[':
+            self.next()
+            elems = []
+            while True:                               # parse_delimited_list(CloseBracket, Comma, parse_expr)
+                self.skip_newlines()
+                if self.at('op', ']'):
+                    break
+                elems.append(self.parse_expr())
+                if self.at('op', ',') or self.at('nl'):
+                    self.next()
+                else:
+                    break
+            self.expect('op', ']')
+            return ('array', elems)
         if tok.kind == 'op' and tok.text == '(':
             self.next()
             elems = []
